@@ -35,7 +35,7 @@ type c16Plan struct {
 var (
 	c16Hosts    = []string{"a.test", "b.test", "*.test", "::1", "x.a.test"}
 	c16Prefixes = []string{"/", "/", "/api", "/app", "/api/v1"}
-	c16Targets  = []string{"/", "/x", "/api", "/api/y?q=1", "/app/", "/api/v1/z?a=b;c&&d=%zz", "/a%2Fb/%41?x=%20", "//double//slash", "/?", "/api?", "/app/q?redirect=http://evil/"}
+	c16Targets  = []string{"/up", "/api/up", "/", "/x", "/api", "/api/y?q=1", "/app/", "/api/v1/z?a=b;c&&d=%zz", "/a%2Fb/%41?x=%20", "//double//slash", "/?", "/api?", "/app/q?redirect=http://evil/"}
 )
 
 func c16Gen(t *rapid.T) c16Plan {
@@ -46,6 +46,12 @@ func c16Gen(t *rapid.T) c16Plan {
 		names := vfSortedKeys(m.Svcs)
 		if len(names) > 0 && rapid.IntRange(0, 5).Draw(t, "remove?") == 0 {
 			c := vfCmd{Op: "remove", Svc: rapid.SampledFrom(names).Draw(t, "rm")}
+			m.apply(c)
+			p.Cmds = append(p.Cmds, c)
+			continue
+		}
+		if len(names) > 0 && rapid.IntRange(0, 4).Draw(t, "state?") == 0 {
+			c := vfCmd{Op: rapid.SampledFrom([]string{"stop", "pause", "resume"}).Draw(t, "state-op"), Svc: rapid.SampledFrom(names).Draw(t, "state-svc"), Msg: "closed", MaxPauseMs: 60000}
 			m.apply(c)
 			p.Cmds = append(p.Cmds, c)
 			continue
@@ -164,6 +170,9 @@ func c16Check(w *vfWorld, r *Router, m *vfModel, p c16Plan, res *vfResult, ctx s
 		if rq.Host != c16HostNoPort(rq.Host) {
 			res.label("host-with-port")
 		}
+		if s.State == "paused" && !(tlsOn && redirect && !rq.TLS) && !(!tlsOn && rq.TLS) && !(req.Method == "GET" && path == s.Opt.healthPath()) {
+			continue // would be held: C07's business
+		}
 		before := received()
 		rp := w.do(r, req)
 		rctx := fmt.Sprintf("%s: %s request Host=%q target=%q -> service %s (effective tls=%v redirect=%v)", ctx, map[bool]string{false: "http", true: "https"}[rq.TLS], rq.Host, rq.Target, name, tlsOn, redirect)
@@ -189,6 +198,18 @@ func c16Check(w *vfWorld, r *Router, m *vfModel, p c16Plan, res *vfResult, ctx s
 				return false
 			}
 			res.label("tls-refused")
+		case s.State != "running" && req.Method == "GET" && path == s.Opt.healthPath():
+			// only once the TLS policy let the request through: the proxy's own 200 for health checks
+			if rp.Status != 200 || rp.Target != "" {
+				res.failf("health-not-200", "%s: service is %s, health-check GET got %v, want 200 from the proxy", rctx, s.State, rp)
+				return false
+			}
+			res.label("health-check-while-not-running")
+		case s.State == "stopped":
+			if rp.Status != http.StatusServiceUnavailable || rp.Target != "" {
+				res.failf("stopped-not-503", "%s: service is stopped, got %v", rctx, rp)
+				return false
+			}
 		default:
 			if rp.Status != 200 || !vfContains(s.Active, rp.Target) {
 				res.failf("not-forwarded", "%s: got %v, want 200 from %v", rctx, rp, s.Active)
